@@ -274,6 +274,7 @@ def run(ctx, budget=1.0):
         if len(pending) > 40:
             flush(res, drv, pending)
     res.extra["light_targets"] = n_light
+    helper_correspondence(ctx, res, drv, int((80 if ctx.quick else 1500) * budget))
     if not ctx.quick:
         for _ in range(20):
             n = rng.randrange(14, 31)
@@ -287,8 +288,62 @@ def run(ctx, budget=1.0):
     return res
 
 
+def helper_correspondence(ctx, res, drv, count):
+    """The solver model calls the model of `inverse_circuit` for its last step (emitter clean-up); `solve_sound` is therefore about the code only
+    if that helper corresponds as well.  Targets reach its sign-dependent branches rarely (three or more emitters left in a correlated
+    computational-basis state with a negative generator), so the helper is also compared directly on emitter-block-shaped inputs: random
+    stabilizer states on 3..7 qubits with random signs, re-gauged.  A disagreement is a broken correspondence of C02 (the solver-level failing
+    target is then searched for in `search`), not by itself a violation of C02."""
+    from harness import c11
+    from harness import stabutil as su
+
+    sub = Result()
+    pend = []
+    for _ in range(count):
+        n = ctx.rng.randrange(3, 8)
+        st = su.random_state(ctx.rng, n).to_stabilizer()
+        if ctx.rng.random() < 0.5:
+            st = su.regauge_stab(st, ctx.rng)
+        c11.check_one(sub, drv, st, "solver-helper", pend)
+        if len(pend) >= 40:
+            c11.flush(sub, drv, pend)
+    c11.flush(sub, drv, pend)
+    res.evaluations += sub.evaluations
+    res.count("branches", "helper:inverse_circuit", sub.evaluations)
+    for v in sub.violations:
+        res.exact_break("helper:inverse_circuit (" + v["key"] + ")", input=v.get("input"), impl=str({k: v[k] for k in v if k not in ("key", "clause", "input")})[:600],
+                        model=v["clause"])
+    for b in sub.exact_breaks:
+        res.exact_break("helper:" + b["correspondence"], **{k: b[k] for k in b if k != "correspondence"})
+
+
 def search(ctx, res, proof_broken):
-    return
+    """a proof obligation or a correspondence (solver or helper) broke and no target failed yet: many more targets that need three or
+    more emitters, real solver + verified validator, until one fails or the budget is used"""
+    import time
+
+    import networkx as nx
+
+    if res.violations:
+        return
+    drv = Driver()
+    SC, DC = make_compilers()
+    pending = []
+    t0 = time.time()
+    n_try = 0
+    while time.time() - t0 < (240 if ctx.quick else 1200) and not res.violations:
+        n = ctx.rng.randrange(6, 10)
+        g = nx.gnp_random_graph(n, ctx.rng.uniform(0.35, 0.8), seed=ctx.rng.getrandbits(30))
+        adj = nx.to_numpy_array(g).astype(int)
+        if (adj.sum(axis=0) == 0).any():
+            continue
+        check_graph(ctx, res, drv, adj, "s" if ctx.rng.random() < 0.5 else "g", "stab", SC, DC, pending, light=True)
+        n_try += 1
+        if len(pending) > 40:
+            flush(res, drv, pending)
+    flush(res, drv, pending)
+    res.notes.append(f"search: {n_try} further dense targets solved and validated")
+    drv.close()
 
 
 def replay(ctx, data):
